@@ -92,10 +92,14 @@ theorem C01_explicit_version_partial (db : Db) (rank : Name → Nat) (hdag : Nam
     | found d reason =>
       rw [hres] at h
       obtain ⟨hc, hname⟩ := resolve_spec _ _ _ _ ha0 _ _ _ _ _ _ _ _ hres
+      simp only at h
+      have hpd : pickDecl (r.cfg db).db (St.init e).cache d = d := rfl
+      rw [hpd] at h
       rw [hv] at hres
       have hver := resolve_explicit _ _ _ _ _ _ _ _ _ _ _ hres
       have := install_top_record (r.cfg db) rank hdag (setup (r.cfg db) k) (setup_recOK (r.cfg db) rank hdag k)
-        false r.vro d reason hc _ s' (register_already (r.cfg db) 0 d reason (St.init e) ha0 hc) h
+        false r.vro d reason hc _ s' (register_already (r.cfg db) 0 d reason
+          ((St.init e).afterResolve (r.cfg db) 0 r.vro r.name r.version none) ha0 hc) h
       refine ⟨d.ver.2, ?_⟩
       rw [← hname, ← hver]; exact this
 
@@ -217,8 +221,12 @@ theorem C01_requested_version_partial (db : Db) (rank : Name → Nat) (hdag : Na
     | found d reason =>
       rw [hres] at h
       obtain ⟨hc, hname⟩ := resolve_spec _ _ _ _ ha0 _ _ _ _ _ _ _ _ hres
+      simp only at h
+      have hpd : pickDecl (r.cfg db).db (St.init e).cache d = d := rfl
+      rw [hpd] at h
       have := install_top_record (r.cfg db) rank hdag (setup (r.cfg db) k) (setup_recOK (r.cfg db) rank hdag k)
-        false r.vro d reason hc _ s' (register_already (r.cfg db) 0 d reason (St.init e) ha0 hc) h
+        false r.vro d reason hc _ s' (register_already (r.cfg db) 0 d reason
+          ((St.init e).afterResolve (r.cfg db) 0 r.vro r.name r.version none) ha0 hc) h
       exact ⟨d, reason, hres, by rw [← hname]; exact this⟩
 
 /-- the required half of the closure: when no dependency line of the closure carries `-j`, every name of the closure has
